@@ -47,7 +47,7 @@ func (f *Abs) Call(s *slip.Scope, args slip.List, depth int) (result slip.Object
 	switch ta := result.(type) {
 	case slip.Fixnum:
 		if ta < 0 {
-			result = -ta
+			result = subFixnums(0, ta)
 		}
 	case slip.SingleFloat:
 		if ta < 0.0 {
